@@ -72,8 +72,11 @@ class PlaceholderSubstitutor(CopyMapper):
     """
 
     def __init__(self, substitutions: Mapping[str, Array]) -> None:
-        # Ignoring function cache, since we don't support functions anyway
-        super().__init__()
+        # Ignoring function cache, since we don't support functions anyway.
+        # A substituted-in array may be structurally equal to the placeholder
+        # it replaces (a caller placeholder named like the parameter), which
+        # is not a duplicate created by this mapper.
+        super().__init__(err_on_created_duplicate=False)
         self.substitutions = substitutions
 
     def map_placeholder(self, expr: Placeholder) -> Array:
